@@ -1,12 +1,94 @@
 """C19 -- runner level: harness/runfam.py (shared run-family correspondence + oracle_c19 on a recording
 reporter); reporter level: harness/c19_reporters.py (the built-in reporters through the real command
 line against Model/Report.v, + independent oracle), on the same Outcome."""
-import runfam, c19_reporters
+import json, os, subprocess, sys, tempfile, textwrap
+import common, runfam, c19_reporters
+
+INTERRUPT_DODO = textwrap.dedent("""
+    import sys
+    def ok():
+        print('out-of-' + 'ok')
+        return True
+    def bye():
+        KIND
+    def task_a():
+        return {'actions': [ok], 'teardown': [TD_A], 'verbosity': 2}
+    def task_b():
+        return {'actions': [ACT_B], 'task_dep': ['a'], 'verbosity': 2}
+""")
+DRIVER = textwrap.dedent("""
+    import sys, json
+    from doit.doit_cmd import DoitMain
+    from doit.cmd_base import ModuleTaskLoader
+    import dodo
+    o, e = sys.stdout, sys.stderr
+    try:
+        rc = DoitMain(ModuleTaskLoader(dodo)).run(['run', '--reporter', 'json', '-o', 'doc.json'] + sys.argv[1:])
+        how = ['returned', rc]
+    except BaseException as x:
+        how = ['raised', type(x).__name__]
+    same = [sys.stdout is o, sys.stderr is e]
+    sys.stdout, sys.stderr = o, e
+    json.dump(dict(how=how, restored=same), open('verdict.json', 'w'))
+""")
+
+
+def interrupt_part(ctx, out):
+    """the JSON reporter when a run is interrupted (SystemExit / KeyboardInterrupt raised by an action or by a
+    teardown action): still exactly one valid document listing every task that was looked at once (the
+    interrupted one with result null), sys.stdout/sys.stderr restored, the exception reaches the caller"""
+    n = 0
+    for kind in ('sys.exit(5)', 'raise KeyboardInterrupt()'):
+        for where in ('action', 'teardown'):
+            for par in ([], ['-n', '2', '-P', 'thread']):
+                d = tempfile.mkdtemp(prefix='c19i_', dir=ctx.tmp); n += 1
+                src = (INTERRUPT_DODO.replace('KIND', kind).replace('TD_A', 'bye' if where == 'teardown' else 'ok')
+                       .replace('ACT_B', 'bye' if where == 'action' else 'ok'))
+                open(os.path.join(d, 'dodo.py'), 'w').write(src)
+                open(os.path.join(d, 'drive.py'), 'w').write(DRIVER)
+                env = common.impl_env(); env['PYTHONPATH'] = common.REPO + os.pathsep + d
+                try:
+                    p = subprocess.run([sys.executable, 'drive.py'] + par, cwd=d, env=env, capture_output=True, text=True, timeout=60)
+                    hung = False
+                except subprocess.TimeoutExpired:
+                    hung = True
+                out.evaluations += 1
+                case = dict(part='interrupt', dodo=src, args=par, kind=kind, where=where)
+                def bad(shape, what):
+                    out.violations.append(dict(what=what + ' (%s in a %s, runner args %s, --reporter json)' % (kind, where, par),
+                                               shape='c19:json-interrupted-' + shape, case=case))
+                if hung:
+                    bad('hang', 'run did not terminate'); continue
+                try:
+                    verdict = json.load(open(os.path.join(d, 'verdict.json')))
+                except Exception:
+                    bad('driver', 'driver died: %s' % p.stderr[-300:]); continue
+                out.count('interrupt:%s:%s:%s' % (where, kind.split('(')[0].split()[-1], verdict['how'][0]))
+                if verdict['restored'] != [True, True]:
+                    bad('streams', 'sys.stdout/sys.stderr are not the original objects after the run')
+                if verdict['how'][0] != 'raised':
+                    bad('swallowed', 'the interrupting exception did not reach the caller of DoitMain.run (it %s %s)' % tuple(verdict['how']))
+                try:
+                    doc = json.load(open(os.path.join(d, 'doc.json')))
+                    names = [t['name'] for t in doc['tasks']]
+                    if sorted(names) != sorted(set(names)) or 'a' not in names:
+                        bad('tasks', 'document lists tasks %s' % names)
+                    ra = [t['result'] for t in doc['tasks'] if t['name'] == 'a']
+                    if ra != ['success']:
+                        bad('result', 'task a succeeded but the document says %s' % ra)
+                    rb = [t['result'] for t in doc['tasks'] if t['name'] == 'b']
+                    if where == 'action' and rb not in ([None], []):
+                        bad('result', 'task b was interrupted but the document says %s' % rb)
+                except Exception as x:
+                    bad('no-document', 'the output is not a single valid JSON document: %s' % x)
+    out.extra['interrupted_json_runs'] = n
 
 
 def run(ctx):
     out = runfam.run_property(ctx, 'C19')
-    return c19_reporters.part_reporters(ctx, out)
+    out = c19_reporters.part_reporters(ctx, out)
+    interrupt_part(ctx, out)
+    return out
 
 
 def replay(ctx, payload):
